@@ -111,3 +111,10 @@ check(
     "Histories are explicit step lists (a JSON replay file is the history) rather than a RuleBasedStateMachine; the pristine process is forked from a server that imported the library but never ran an operation; operations needing live wind fields on bare DataArrays are compared in-process only.",
     "DESIGN.md section 5 C18",
 )
+check(
+    "C20",
+    "Python layer: Hypothesis-generated degenerate spectra on grids from 1x1 up x the operation catalogue, and the whole invalid-argument catalogue on every generated dataset; native layer: exhaustive enumeration + pseudo-random + Hypothesis-piped cases through a clang ASan/UBSan driver linked against the tree's specpart.c, and a coverage-guided libFuzzer campaign with the oracle inside the target",
+    "Every {0,1}/{0,1,2} map on every shape up to 16/12 cells (thorough) under sanitizers with a per-call CPU-time cap; millions of pseudo-random native cases with interleaved shapes; libFuzzer 16 x 600k runs (thorough) / 2 x 50k (quick); thousands of degenerate Python-layer cases and 22 invalid-argument entries per dataset. Exhaustive inside the enumerated bounds, exploration beyond; a reached fuzzing budget is reported as such.",
+    "Memory-safety verdicts come from the standalone link of the same C source (not the extension binary); leak detection off (known leak in ptnghb is not a C20 clause); hp01 excluded as documented experimental.",
+    "DESIGN.md section 5 C20",
+)
